@@ -152,7 +152,32 @@ def register_hooks(m, foreign=False):
 # ---------------------------------------------------------------------------------------------
 # planting
 # ---------------------------------------------------------------------------------------------
-def plant(df, meta, col, rows):
+class Twin:
+    """A value that PRINTS like a training level but is not equal to it (think of the int 1 next to the
+    level '1'): an unseen level like any other."""
+
+    def __init__(self, text):
+        self.text = str(text)
+
+    def __str__(self):
+        return self.text
+
+    __repr__ = __str__
+
+    def __hash__(self):
+        return hash(("twin", self.text))
+
+    def __eq__(self, other):
+        return self is other
+
+    def __lt__(self, other):  # sortable next to strings, should anybody sort levels
+        return str(self) < str(other)
+
+    def __gt__(self, other):
+        return str(self) > str(other)
+
+
+def plant(df, meta, col, rows, twin=False):
     """Returns (frame with an unseen level of `col` on `rows`, the same rows with a SEEN level)."""
     kind = meta[col]["kind"]
     new = df.copy()
@@ -160,6 +185,8 @@ def plant(df, meta, col, rows):
     first = meta[col]["levels"][0]
     if kind == "code":
         unseen_val = 99991
+    elif twin and kind in ("obj", "cat"):
+        unseen_val = Twin(meta[col]["levels"][-1])
     else:
         unseen_val = "ZZ new"
     for fr, val in ((new, unseen_val), (seen, first)):
@@ -215,7 +242,10 @@ def judge(case, m):
     base = df.iloc[rng.integers(0, len(df), size=n_new)].reset_index(drop=True)
     k = int(rng.integers(1, n_new))
     S = np.sort(rng.choice(n_new, size=k, replace=False))
-    new, seen = plant(base, meta, col, S)
+    twin = meta[col]["kind"] in ("obj", "cat") and case["frame"]["seed"] % 3 == 0
+    new, seen = plant(base, meta, col, S, twin=twin)
+    if twin:
+        m.cls("unseen:prints-like-a-seen-level")
     # arbitrary index on the new frame (permuted, non-unique, strings): rows are positions, not labels
     ik = int(rng.integers(0, 4))
     if ik == 1:
